@@ -276,13 +276,15 @@ def play_session(rng, n_msgs, wrap):
                     if conn.index == 0 and drop_at is not None:
                         conn.eof(delay=drop_at)
                 elif cmd == 4:
-                    how = rng.choice(['ok', 'ok', 'ok', 'ok', 'reject', 'nack', 'silence'])
+                    how = rng.choice(['ok', 'ok', 'ok', 'ok', 'reject', 'nack', 'silence', 'reject_bare'])
                     reactions[seq] = how
                     d = rng.choice([0.01, 0.3, 2.0])
                     if how == 'ok':
                         conn.send(smppref.header(0x80000004, 0, seq, b'id%d\x00' % seq), delay=d)
                     elif how == 'reject':
                         conn.send(smppref.header(0x80000004, rng.choice([0x58, 0x45, 8]), seq, b'\x00'), delay=d)
+                    elif how == 'reject_bare':      # a rejection without a body, as SMPP 3.4 prescribes
+                        conn.send(smppref.header(0x80000004, rng.choice([0x58, 0x0B]), seq), delay=d)
                     elif how == 'nack':
                         conn.send(smppref.header(0x80000000, 3, seq), delay=d)
                 elif cmd == 0x15:
@@ -380,6 +382,97 @@ def ref_collision_session(n_between):
     return obs
 
 
+def requeue_session(kind, first_fate):
+    """the application's retry: a segmented message whose second segment is ignored / rejected by the SMSC is reported once; the hook
+    re-queues the very object it was handed (new log_id), the SMSC accepts every segment of the second attempt"""
+    from aiosmpplib.protocol import SubmitSm, SubmitSmResp, GenericNack
+    from aiosmpplib.state import PhoneNumber, TON, NPI
+    from aiosmpplib.correlator import SimpleCorrelator
+    loop = vsess.VLoop()
+    asyncio.set_event_loop(loop)
+    smsc = vsess.FakeSMSC(loop)
+    undo = vsess.install(loop, smsc)
+    obs = {'outcomes': [], 'submits': 0}
+    try:
+        esme, hook = vsess.quiet_esme(enquire_link_interval=0.5, socket_timeout=10.0, correlator=SimpleCorrelator('crq', max_ttl_response=3.0))
+
+        def on_pdu(conn, pdu):
+            for p in vsess.split_pdus(pdu)[0]:
+                cmd, seq = struct.unpack('>I', p[4:8])[0], struct.unpack('>I', p[12:16])[0]
+                if cmd in (1, 2, 9):
+                    conn.send(vsess.bind_resp_for(p))
+                elif cmd == 4:
+                    obs['submits'] += 1
+                    if obs['submits'] == 2:
+                        if first_fate == 'rejected':
+                            conn.send(smppref.header(0x80000004, 0x58, seq), delay=0.05)
+                        continue
+                    conn.send(smppref.header(0x80000004, 0, seq, b'id%d\x00' % seq), delay=0.05)
+                elif cmd == 0x15:
+                    conn.send(smppref.header(0x80000015, 0, seq), delay=0.01)
+        smsc.on_pdu = on_pdu
+        requeue = []
+
+        def egate(m, err):
+            if isinstance(m, SubmitSm):
+                obs['outcomes'].append((m.log_id, 'send_error', type(err).__name__, m.extra_data))
+                if m.log_id == 'try-1':
+                    m.log_id = 'try-2'
+                    requeue.append(m)
+            return None
+        hook.error_gate = egate
+
+        async def main():
+            t = asyncio.create_task(esme.start())
+            await asyncio.sleep(0.5)
+            src = PhoneNumber('38591', TON.INTERNATIONAL, NPI.ISDN)
+            kw = dict(short_message='A' * 400, source=src, destination=src, log_id='try-1', extra_data='XQ', auto_message_payload=False)
+            if kind == 'udh':
+                kw['esm_class'] = 0x40
+            orig = SubmitSm(**kw)
+            await esme.broker.enqueue(orig)
+            for _ in range(200):
+                await asyncio.sleep(0.1)
+                for e in hook.log:
+                    if e[0] == 'received' and isinstance(e[1], (SubmitSmResp, GenericNack)) and e[1].log_id == 'try-1' and not requeue and not obs.get('rq'):
+                        # a rejected first attempt is reported through received(): retry with the object the application still holds
+                        obs['rq'] = True
+                        orig.log_id = 'try-2'
+                        requeue.append(orig)
+                while requeue:
+                    await esme.broker.enqueue(requeue.pop())
+            obs['start_done'] = t.done()
+            for e in hook.log:
+                if e[0] == 'received' and isinstance(e[1], (SubmitSmResp, GenericNack)) and e[1].log_id:
+                    obs['outcomes'].append((e[1].log_id, 'received', int(e[1].command_status), e[1].extra_data))
+            t.cancel()
+            try:
+                await t
+            except BaseException:  # noqa: BLE001
+                pass
+        loop.run_until_complete(main())
+    finally:
+        undo()
+        vsess.finish(loop)
+    return obs
+
+
+def oracle_requeue(obs):
+    if obs.get('start_done'):
+        return 'start() ended'
+    first = [o for o in obs['outcomes'] if o[0] == 'try-1']
+    second = [o for o in obs['outcomes'] if o[0] == 'try-2']
+    other = [o for o in obs['outcomes'] if o[0] not in ('try-1', 'try-2')]
+    if len(first) != 1 or (first[0][1] == 'received' and first[0][2] == 0):
+        return f'the first attempt (second segment not accepted) got the outcomes {first}'
+    if other:
+        return f'an outcome carries an unknown log_id: {other}'
+    if len(second) != 1 or second[0][1:] != ('received', 0, 'XQ'):
+        return (f'the re-queued message ({obs["submits"]} submit_sm PDUs in all; every segment of the second attempt was accepted) got the '
+                f'outcomes {second}')
+    return None
+
+
 def oracle_session(obs):
     from aiosmpplib.protocol import SubmitSm, SubmitSmResp, GenericNack
     if obs['start_done']:
@@ -421,7 +514,7 @@ def run(ctx):
                 'reference counter about to wrap; non-trivial = a message with a failed or timed-out segment')
     ctx.trusted_base = ['Coq 8.16.1 kernel; no axioms', 'translator/py2coq.py (status codes, command maps)',
                         'harness/C01.py, C02.py, vsess.py, smppref.py', 'the expiry sweep is triggered by correlator traffic (keep-alive) - C14']
-    ctx.assumptions = ['references of concurrently unfinished messages are distinct (inherent to the 8-bit reference); histories are per ESME instance',
+    ctx.assumptions = ['references of concurrently unfinished messages may coincide (status cells are keyed by reference and first sequence number); sequence numbers of unfinished messages are distinct; histories are per ESME instance',
                        'known finding of C14 (response before put under write back-pressure) is outside: the transport never pauses here']
     proved = ctx.prove('C01', THEOREMS)
     rng = ctx.rng
@@ -531,6 +624,16 @@ def run(ctx):
                 if n_out != 1 and not obs['start_done']:
                     ctx.violation(f'message T{j} (queued {"%.2f s after" % lag if j == 1 else "outside"} the moment the session noticed the loss of the connection'
                                   f'{", segmented" if long_text and j == 1 else ""}) got {n_out} outcomes', {'scenario': 'teardown', 'lag': lag, 'long_text': long_text})
+    # ---- the application's retry of the object handed to send_error
+    for kind in ('sar', 'udh'):
+        for fate in ('silent', 'rejected'):
+            obs = requeue_session(kind, fate)
+            ctx.traces += 1
+            ctx.case(('requeue', kind, fate), nontrivial=True)
+            msg = oracle_requeue(obs)
+            if msg:
+                ctx.violation(f'{kind}-segmented message, second segment {fate}, then re-queued by the application: {msg}',
+                              {'scenario': 'requeue', 'kind': kind, 'fate': fate})
     # ---- more than 255 reference-taking messages in flight at once
     for n_between in (254, 255):
         obs = ref_collision_session(n_between)
@@ -562,6 +665,10 @@ def replay(ctx, path):
     elif r.get('scenario') == 'teardown':
         print('replay: run ./check C06 --replay with the same scenario (harness/C06.run_teardown) - lag', r['lag'], 'long_text', r['long_text'])
         return 0
+    elif r.get('scenario') == 'requeue':
+        obs = requeue_session(r['kind'], r['fate'])
+        print('replay: outcomes', obs['outcomes'], 'submit_sm PDUs', obs['submits'])
+        msg = oracle_requeue(obs)
     elif r.get('scenario') == 'reference_collision':
         msg = oracle_session(ref_collision_session(r['n_between']))
     else:
